@@ -502,7 +502,7 @@ theorem desc_congr {s s' : State} (h : s'.kids = s.kids) {a z : Nat} : Desc s' a
 /-- an `exitM` after some preparatory tree ops that neither change the child sets nor stop anybody -/
 theorem StepRel.of_exitM {prev : State} {m' : MState} (h : MI m') {a : Nat} (han : a < m'.t.n)
     (hag : (m'.act a).gone = false) (ops0 : List Op) (he : m'.t = Tree.steps true prev ops0)
-    (hk : m'.t.kids = prev.kids) (hst : ∀ z, m'.t.status z = .stopped → prev.status z = .stopped) :
+    (hk : ∀ z x, child prev z x → child m'.t z x) (hst : ∀ z, m'.t.status z = .stopped → prev.status z = .stopped) :
     StepRel prev (exitM true m' a).t := by
   obtain ⟨_, hD, hN, _, l, hl⟩ := exitM_spec h han hag
   refine ⟨⟨ops0 ++ (a :: l).map Op.exit, by rw [steps_append, ← he]; exact hl⟩, ?_⟩
@@ -511,7 +511,7 @@ theorem StepRel.of_exitM {prev : State} {m' : MState} (h : MI m') {a : Nat} (han
     apply Classical.byContradiction; intro hnd
     rw [hN z hnd] at h1
     exact h2 (hst z h1)
-  exact hD x (.tail hdz ((child_congr hk).mpr hx))
+  exact hD x (.tail hdz (hk z x hx))
 
 /-- what the three Bool predicates of the driver need -/
 theorem StepRel.checks {prev cur : State} (hp : Inv prev) (h : StepRel prev cur) :
@@ -663,7 +663,7 @@ theorem MI.live_status {m : MState} (h : MI m) {a : Nat} (hg : (m.act a).gone = 
 theorem exitM_rel {m : MState} (h : MI m) {a : Nat} (hal : m.alive a = true) :
     MI (exitM true m a) ∧ StepRel m.t (exitM true m a).t := by
   obtain ⟨han, hag⟩ := alive_iff.mp hal
-  exact ⟨(exitM_spec h han hag).1, StepRel.of_exitM h han hag [] rfl rfl (fun _ hz => hz)⟩
+  exact ⟨(exitM_spec h han hag).1, StepRel.of_exitM h han hag [] rfl (fun _ _ hx => hx) (fun _ hz => hz)⟩
 
 /-- every macro op leads from a quiescent state to a quiescent state, and the two snapshots are related -/
 theorem mstep_rel {m : MState} (h : MI m) (op : MOp) :
@@ -714,12 +714,57 @@ theorem mstep_rel {m : MState} (h : MI m) (op : MOp) :
       have hag : (m.act m.t.n).gone = false := h.not_gone_fresh (Nat.le_refl _)
       obtain ⟨hmi, _⟩ := exitM_spec h1 (a := m.t.n) hn hag
       refine ⟨hmi, ?_⟩
-      apply StepRel.of_exitM h1 hn hag [.spawn] rfl rfl
+      apply StepRel.of_exitM h1 hn hag [.spawn] rfl (fun _ _ hx => hx)
       intro z hz
       simp only [Tree.spawn, upd_apply] at hz
       split at hz
       · cases hz
       · exact hz
+  | spawnlt p fails =>
+    simp only [mstep]
+    have h1 := h.spawn
+    have hn : m.t.n < (Tree.spawn m.t).n := Nat.lt_succ_self _
+    have h2 : MI { m with t := (link (Tree.spawn m.t) m.t.n p).1 } := MI.link h1 m.t.n p
+    obtain ⟨hch, _, _, hst, _, hnn⟩ := link_other h1.inv (c := m.t.n) (p := p) (z := 0)
+    have hst' : (link (Tree.spawn m.t) m.t.n p).1.status = (Tree.spawn m.t).status := hst
+    cases hr : (link (Tree.spawn m.t) m.t.n p).2 with
+    | false => simp only [Bool.not_false, ↓reduceIte]; exact ⟨h, StepRel.refl _⟩
+    | true =>
+    simp only [Bool.not_true, Bool.false_eq_true, ↓reduceIte]
+    by_cases hc : (!fails) = true
+    · simp only [hc, ↓reduceIte]
+      have hlive : (link (Tree.spawn m.t) m.t.n p).1.status m.t.n ≠ .stopped := by
+        rw [hst']; simp [Tree.spawn]
+      refine ⟨MI.setStatus h2 .running (by simp only [hnn]; exact hn) hlive (by decide), ?_⟩
+      show StepRel m.t (Tree.steps true m.t [.spawn, .link m.t.n p, .setStatus m.t.n .running])
+      apply StepRel.of_steps
+      intro a ha
+      have : Tree.steps true m.t [.spawn, .link m.t.n p, .setStatus m.t.n .running] =
+          setStatus (link (Tree.spawn m.t) m.t.n p).1 m.t.n .running := rfl
+      rw [this, setStatus_status, hst'] at ha
+      split at ha
+      · simp [Tree.spawn, Status.max, Status.toNat] at ha
+      · next e => simpa [Tree.spawn, upd_ne _ _ e] using ha
+    · simp only [hc, Bool.false_eq_true, ↓reduceIte]
+      have hag : (m.act m.t.n).gone = false := h.not_gone_fresh (Nat.le_refl _)
+      have han' : m.t.n < (link (Tree.spawn m.t) m.t.n p).1.n := by rw [hnn]; exact hn
+      obtain ⟨hmi, _⟩ := exitM_spec h2 (a := m.t.n) han' hag
+      refine ⟨hmi, ?_⟩
+      apply StepRel.of_exitM h2 han' hag [.spawn, .link m.t.n p] rfl
+      · -- the link only adds an edge: the new cell had no supervisor, so nothing is erased
+        intro z x hx
+        have hsup : (Tree.spawn m.t).sup m.t.n = none := by
+          show m.t.sup m.t.n = none
+          cases hs : m.t.sup m.t.n with
+          | none => rfl
+          | some q => exact absurd (h.inv.sup_lt hs).1 (Nat.lt_irrefl _)
+        exact child_of_link_orphan h1.inv hsup hx
+      · intro z hz
+        simp only [hst'] at hz
+        simp only [Tree.spawn, upd_apply] at hz
+        split at hz
+        · cases hz
+        · exact hz
   | link c p =>
     refine ⟨MI.link h c p, ?_⟩
     show StepRel m.t (Tree.steps true m.t [.link c p])
@@ -799,7 +844,7 @@ theorem mstep_rel {m : MState} (h : MI m) (op : MOp) :
           simp [MState.alive, han, hag, Tree.setStatus]
         obtain ⟨han', hag'⟩ := alive_iff.mp hal'
         refine ⟨(exitM_spec hm' han' hag').1, ?_⟩
-        apply StepRel.of_exitM hm' han' hag' [.setStatus a .draining] rfl rfl
+        apply StepRel.of_exitM hm' han' hag' [.setStatus a .draining] rfl (fun _ _ hx => hx)
         intro z hz
         simp only at hz
         rw [setStatus_status] at hz
